@@ -38,9 +38,15 @@ Sensitivity (scratch copies, quick tier, seed 1):
     int() of an over-long version prefix ('7'*4301+'|') raises -> UnboundLocalError -> 500  -> caught (server_error; found
     by the enumerated "edge" part in cookie and token position, and by the exploration).  Missed before: the malformed
     classes had no input that fails *before* the version is known; the check's own decoder also called int() on it.
+  * web.py check_xsrf_cookie: the "a or b or c" carrier chain rewritten with "is None" tests, so a present-but-blank
+    _xsrf field (or an empty X-XSRFToken header) shadows the valid token in a later carrier -> 403   -> caught
+    (matching_token_rejected; edge part + exploration arm "blank earlier carrier + token in a later carrier", label
+    blank_earlier_carrier_valid_later_accept ~240/run).  Missed before: two-carrier cases never had a blank first one.
+    The real tree accepts these requests (the statement only asks that the request *carries* a matching token).
 The "edge" part runs every malformed string (~47: over-long version prefixes and timestamps, odd/non-hex masks,
 non-ASCII digits, versions 0 / -1 / +2 / 2_0, wrong field counts ...) as cookie and as token through body, query,
-multipart and header carriers for both app versions (658 cases).
+multipart and header carriers for both app versions, plus every (blank earlier carrier, later carrier) pair x
+3 blanks x 4 kinds of valid token (and another session's token as the negative): ~950 deterministic cases.
 """
 import html
 import re
@@ -357,6 +363,8 @@ def evaluate(case):
             labels.add("v1_cookie_v2_token")
         if cookie and _VER.match(cookie) and not _VER.match(token):
             labels.add("v2_cookie_v1_token")
+        if len(carriers) >= 2 and carriers[0][1][0] == "literal" and carriers[0][1][1].strip() == "":
+            labels.add("blank_earlier_carrier_valid_later_accept")
         if not ran:
             issued = first in ("cookie_value", "issued2") and len(carriers) == 1
             return problem("C24.issued_token_rejected" if issued else "C24.matching_token_rejected", {"code": code})
@@ -420,11 +428,20 @@ token_s = st.one_of(
     st.tuples(st.just("literal"), st.text(alphabet="0123456789abcdef|2 \t\xe9\u2603_+", max_size=14)),
     st.tuples(st.just("bytes"), st.sampled_from([b"\xff", b"2|aabbccdd|11\xfe22|5", b"\xc3", b"ab\x00cd", b"abcd\n", b" abcd "])),
 )
+BLANKS = ["", " ", "  "]
+# (blank carrier, later carrier): the documented order is _xsrf argument, X-XSRFToken, X-CSRFToken; a carrier
+# that is present but blank (get_argument strips) does not count as "carrying a token"
+BLANK_PAIRS = [("form", "x-xsrftoken"), ("form", "x-csrftoken"), ("query", "x-xsrftoken"), ("query", "x-csrftoken"),
+               ("multipart", "x-xsrftoken"), ("multipart", "x-csrftoken"), ("x-xsrftoken", "x-csrftoken")]
+blank_then_token_s = st.builds(
+    lambda pair, blank, tok: [(pair[0], ("literal", blank)), (pair[1], tok)],
+    st.sampled_from(BLANK_PAIRS), st.sampled_from(BLANKS), token_s)
 carrier_kind_s = st.sampled_from(["form", "form", "query", "multipart", "x-xsrftoken", "x-xsrftoken", "x-csrftoken"])
 carriers_s = st.one_of(
     st.lists(st.tuples(carrier_kind_s, token_s), min_size=1, max_size=1),
     st.lists(st.tuples(carrier_kind_s, token_s), min_size=1, max_size=1),
     st.lists(st.tuples(carrier_kind_s, token_s), min_size=0, max_size=2),
+    blank_then_token_s,
 )
 method_s = st.sampled_from(["POST", "POST", "POST", "PUT", "DELETE", "PATCH", "GET", "HEAD", "OPTIONS"])
 case_s = st.tuples(st.sampled_from([1, 2, 2]), seed_s, cookie_s, carriers_s, method_s)
@@ -442,6 +459,13 @@ def edge_cases():
                 yield (version, seed, ("issued",), [(carrier, ("literal", bad))], "POST")
             yield (version, seed, ("enc2", b"abcd", "5"), [("query", ("literal", bad))], "DELETE")
             yield (version, seed, ("issued",), [("multipart", ("literal", bad))], "PATCH")
+        # a present-but-blank earlier carrier must not shadow a valid token in a later carrier
+        for (first, later) in BLANK_PAIRS:
+            for blank in BLANKS:
+                for tok in (("cookie_value",), ("issued2", True), ("remask", b"wxyz", "7"), ("v1hex", False)):
+                    yield (version, b"\x05", ("issued",), [(first, ("literal", blank)), (later, tok)], "POST")
+                # ... and the negative: blank carrier + another session's token stays rejected
+                yield (version, b"\x05", ("issued",), [(first, ("literal", blank)), (later, ("other_session",))], "PUT")
 
 
 PARTS = {"main": run_case, "edge": run_case}
